@@ -25,7 +25,9 @@ META = {
                   "witnesses replayed on the real code. On every run the model is compared with the compiled code on an "
                   "exhaustive rule x key x JSON-kind grid and on structured valid and corrupted configurations, and every "
                   "accepted configuration is serialized, read back, serialized again and run against its round-tripped "
-                  "form on a probe tree.",
+                  "form on a probe tree; its meaning with every default written out (python reading of the documentation) is "
+                  "compared with the meaning of the text read back; bundle blocks range over every field of the path / luau require "
+                  "modes at non-default values (incl. use_luau_configuration false) and are run on a project where each field matters.",
     "level_note": "Trusted: Coq kernel + vm_compute; Model/Config.v statement of behavioural equality (same name, property "
                   "map, filters); harness + python driver (JSON transport, canonical forms); oracles: wax globs, regex "
                   "crate, identifier check, normal forms of `globals`, require-mode and bundle blocks (dumped as tables). "
@@ -40,12 +42,15 @@ META = {
             "orders; configurations: rules/process alias, default rules, generator forms, bundle settings, top-level "
             "filters; grid: every rule x every candidate key (all string literals found in the rules' configure functions "
             "+ junk) x sample values of every JSON kind; corruptions: every key misspelt, every value replaced by every "
-            "other kind, every key duplicated, extra properties, unknown rule names / top-level keys, invalid globs, "
+            "other kind, every key of every object (rule, configuration, generator, bundle, bundle require mode) written twice "
+            "with the other occurrence an empty list / empty string / null / false / 0 / the real value before or after it, "
+            "duplicates inside map-typed values, extra properties, unknown rule names / top-level keys, invalid globs, "
             "regexes, identifiers, enum values. A case is non-trivial when it is not a bare rule name; distinct by text",
     "assumptions": ["equal (name, normalized property map, filter lists) implies equal behaviour of the configured rule "
                     "(exercised on the probe tree, not proved)",
                     "glob / regex / identifier validity, the normal form of rename_variables.globals, of require-mode values "
-                    "and of the bundle block are oracles (Section variables; dumped tables in the check)",
+                    "and of the bundle block are oracles in the theorems (Section variables); the check uses dumped tables for the "
+                    "first four and the concrete Model/ConfigBundle.v (transcribed serde attributes) for the bundle block",
                     "environment variables read by inject_global_value (env, env_json) are fixed during a run"],
 }
 
@@ -134,12 +139,28 @@ def canon_config(c, written=False):
             out.append((k, [canon_rule(r) for r in x]))
         elif k == "bundle":
             # written bundles are compared in sorted form; the bundle of an input is kept as given (duplicates matter)
-            out.append((k, deep(x, sort_excludes=True) if written else deep_keep_order(x)))
+            out.append((k, canon_bundle_written(x) if written else deep_keep_order(x)))
         elif k == "generator":
             out.append((k, deep_keep_order(x)))
         else:
             out.append((k, x))
     return out
+
+
+def canon_bundle_written(v, inside=None):
+    """what darklua wrote for a bundle block: fields in declaration order; the entries of the `sources` / `aliases`
+    maps and the `excludes` set come out of hash tables, so they are compared sorted"""
+    if isinstance(v, O):
+        pairs = [(k, canon_bundle_written(x, k)) for k, x in v]
+        if inside in ("sources", "aliases"):
+            pairs.sort()
+        return O(pairs)
+    if isinstance(v, list):
+        out = [canon_bundle_written(x) for x in v]
+        return sorted(out) if inside == "excludes" and all(isinstance(e, str) for e in out) else out
+    if isinstance(v, (int, float)) and not isinstance(v, bool):
+        return num(v)
+    return v
 
 
 def deep_keep_order(v):
@@ -256,10 +277,27 @@ GENERATORS = ["retain_lines", "retain-lines", "dense", "readable", obj(name="ret
               obj(name="dense"), obj(name="readable"), obj(name="dense", column_span=120), obj(column_span=40, name="readable"),
               obj(name="dense", column_span=0), obj(name="readable", column_span=80)]
 
+SRC_MAP = obj(("@pkg", "./src/pkgdir"), ("@other", "src/rcdir"))
 BUNDLES = [None, obj(require_mode="path"), obj(require_mode="luau"), obj(require_mode=obj(name="path")),
+           obj(require_mode=obj(name="luau")),
            obj(require_mode=obj(name="path", module_folder_name="index")),
+           obj(require_mode=obj(name="path", module_folder_name="init")),
+           obj(require_mode=obj(name="path", use_luau_configuration=False)),
+           obj(require_mode=obj(name="path", use_luau_configuration=True)),
+           obj(require_mode=obj(name="path", sources=SRC_MAP)),
+           obj(require_mode=obj(name="path", sources=obj())),
+           obj(require_mode=obj(use_luau_configuration=False, sources=obj(("@pkg", "./src/pkgdir")), module_folder_name="index", name="path")),
+           obj(require_mode=obj(name="luau", use_luau_configuration=False)),
+           obj(require_mode=obj(name="luau", use_luau_configuration=True)),
+           obj(require_mode=obj(name="luau", aliases=obj(pkg="./src/pkgdir", other="src/rcdir"))),
+           obj(require_mode=obj(name="luau", sources=obj(pkg="./src/pkgdir"))),
+           obj(require_mode=obj(aliases=obj(pkg="./src/pkgdir"), name="luau", use_luau_configuration=False)),
            obj(require_mode="path", modules_identifier="__MODS"),
+           obj(require_mode="path", modules_identifier=None),
+           obj(require_mode="path", modules_identifier="__DARKLUA_BUNDLE_MODULES"),
            obj(require_mode="path", excludes=["@lune/**", "secret"]),
+           obj(require_mode="path", excludes=["b", "a", "b"]),
+           obj(require_mode="luau", excludes=["@pkg/**"], modules_identifier="MODS"),
            obj(excludes=[], require_mode=obj(name="luau", use_luau_configuration=False), modules_identifier="M")]
 
 KIND_SAMPLES = [None, True, False, 7, 0, -2, 1.5, "zz", "", [], ["zz"], ["zz", "yy"], [1], [None], obj(), obj(zz=1), [["zz"]]]
@@ -570,6 +608,73 @@ def build_cases(ctx, names, tmpfile):
             seen.add(t)
             cases.append(Case("config", v, e, why=w, level="corrupt", base="extra"))
 
+
+    # ---- duplicate keys, on the text: every key of every object twice; the other occurrence is an empty list, an empty
+    #      string, a falsy value or the real value, before or after the real one (a reader that keeps a plain Vec /
+    #      Option and tests is_empty() / is_none() instead of "seen" would let the last one win)
+    FIRSTS = [[], "", None, False, 0]
+    def duplicates_of(o, rebuild, where):
+        out = []
+        for i, (k, x) in enumerate(o):
+            for first in FIRSTS + [x]:
+                if render(first) == render(x) and first is not x:
+                    continue
+                out.append((rebuild(O(o[:i] + [(k, first)] + o[i:])), "%s: key %s twice, first %s" % (where, k, render(first)[:30])))
+                out.append((rebuild(O(o[:i + 1] + [(k, first)] + o[i + 1:])), "%s: key %s twice, second %s" % (where, k, render(first)[:30])))
+                if i + 1 < len(o):
+                    out.append((rebuild(O(list(o) + [(k, first)])), "%s: key %s again at the end, %s" % (where, k, render(first)[:30])))
+        return out
+    dups = []
+    for name in names:
+        props = bases[name] if name in cat else obj()
+        if name == "inject_global_value":
+            props = obj(identifier="V", value=1)
+        shapes = [obj(apply_to_files=GLOBS[0], skip_files=[GLOBS[1]])]
+        if name in ("inject_global_value", "remove_spaces", "rename_variables"):
+            shapes.append(obj(skip_files="**/test.lua", apply_to_files=[GLOBS[0], GLOBS[3]]))
+        for flt in shapes:
+            r = rule_object(name, props, flt, 0)
+            dups += duplicates_of(r, lambda nr: obj(rules=[nr]), "rule " + name)
+    top_base = obj(rules=["remove_spaces"], generator=obj(name="dense", column_span=100),
+                   bundle=obj(require_mode=obj(name="path", module_folder_name="index", sources=obj(("@pkg", "./p")),
+                                               use_luau_configuration=False),
+                              modules_identifier="M", excludes=["x"]),
+                   apply_to_files=[GLOBS[0]], skip_files=GLOBS[1])
+    dups += duplicates_of(top_base, lambda nv: nv, "configuration")
+    dups += duplicates_of(obj(process=["remove_spaces"], skip_files=[GLOBS[1]]), lambda nv: nv, "configuration (process)")
+    def with_key(base, key, nv):
+        return O((k, nv if k == key else x) for k, x in base)
+    dups += duplicates_of(dict(top_base)["generator"], lambda nv: with_key(top_base, "generator", nv), "generator object")
+    dups += duplicates_of(obj(name="readable", column_span=7), lambda nv: obj(rules=[], generator=nv), "generator object")
+    dups += duplicates_of(dict(top_base)["bundle"], lambda nv: with_key(top_base, "bundle", nv), "bundle object")
+    rm = dict(dict(top_base)["bundle"])["require_mode"]
+    dups += duplicates_of(rm, lambda nv: with_key(top_base, "bundle", with_key(dict(top_base)["bundle"], "require_mode", nv)),
+                          "bundle require_mode object")
+    lm = obj(name="luau", use_luau_configuration=False, aliases=obj(pkg="./p"))
+    dups += duplicates_of(lm, lambda nv: obj(rules=[], bundle=obj(require_mode=nv)), "bundle require_mode object (luau)")
+    for v, w in dups:
+        t = render(v)
+        if t not in seen:
+            seen.add(t)
+            cases.append(Case("config", v, "reject", why="duplicate key " + w, level="corrupt", base="duplicates"))
+    # duplicates inside map-typed values (no model: the transport keeps one value per key there)
+    nested = [
+        (obj(rules=[obj(rule="inject_global_value", identifier="A", value=O([("a", 1), ("a", 2)]))]), "inject_global_value.value"),
+        (obj(rules=[obj(rule="inject_global_value", identifier="A", env="DL_C19_UNSET", default_value=O([("a", 1), ("b", 0), ("a", 1)]))]),
+         "inject_global_value.value"),
+        (obj(rules=[obj(rule="inject_global_value", identifier="A", value=[O([("a", []), ("a", "x")])])]), "inject_global_value.value"),
+        (obj(rules=[], bundle=obj(require_mode=obj(name="path", sources=O([("@a", "x"), ("@a", "y")])))), "require_mode.sources"),
+        (obj(rules=[], bundle=obj(require_mode=obj(name="luau", aliases=O([("a", "x"), ("b", "z"), ("a", "x")])))), "require_mode.sources"),
+        (obj(rules=[obj(rule="convert_require", current=O([("name", "path"), ("name", "luau")]), target="path")]), "convert_require.current"),
+        (obj(rules=[obj(rule="convert_require", target="path",
+                        current=O([("name", "path"), ("module_folder_name", "a"), ("module_folder_name", "b")]))]), "convert_require.current"),
+        (obj(rules=[obj(rule="convert_require", target="path",
+                        current=obj(name="path", sources=O([("@a", "x"), ("@a", "y")])))]), "require_mode.sources"),
+    ]
+    for v, where in nested:
+        cases.append(Case("config", v, "reject", why="duplicate key inside " + where, level="corrupt", base="nested-duplicates",
+                          nomodel=True, nested=where))
+
     # distinct by (kind, text)
     out, seen2 = [], set()
     for c in cases:
@@ -649,7 +754,7 @@ def coq_json_table(name, pairs):
 
 
 PREAMBLE_HEAD = """From Coq Require Import List Bool String Ascii ZArith NArith DecimalString.
-From DL Require Import Model.Config Model.ConfigRules.
+From DL Require Import Model.Config Model.ConfigRules Model.ConfigBundle.
 Import ListNotations.
 Open Scope string_scope.
 Definition nl : string := String (ascii_of_nat 10) EmptyString.
@@ -675,7 +780,7 @@ Definition o_ident := tbl_bool ident_tbl.
 Definition o_globals (l : list string) := glookup l globals_tbl.
 Definition o_reqmode (j : json) := jlookup j reqmode_tbl.
 Definition o_envjson (s : string) := negb (mem s env_bad).
-Definition o_bundle (j : json) := jlookup j bundle_tbl.
+Definition o_bundle (j : json) := bundle_norm j.     (* Model/ConfigBundle.v; bundle_tbl (dumped) is kept for reference *)
 Definition de_rule := deserialize_rule o_glob o_regex o_ident o_globals o_reqmode o_envjson rule_specs.
 Definition se_rule := serialize_rule rule_specs.
 Definition de_config := deserialize_config o_glob o_regex o_ident o_globals o_reqmode o_envjson o_bundle rule_specs default_rule_names.
@@ -804,6 +909,130 @@ def json_as_lua(v):
 
 # ---------------------------------------------------------------------------------------------
 
+# ---------------------------------------------------------------------------------------------
+# what a configuration MEANS according to the documentation, with every default written out: a python-side
+# specification used to compare a configuration with the one read back from its serialized text
+
+RULE_DEFAULTS = {
+    "append_text_comment": {"location": "start"},
+    "remove_assertions": {"preserve_arguments_side_effects": True},
+    "remove_debug_profiling": {"preserve_arguments_side_effects": True},
+    "remove_attribute": {"match": []},
+    "remove_comments": {"except": []},
+    "remove_interpolated_string": {"strategy": "string"},
+    "rename_variables": {"globals": ["$default"], "include_functions": False, "detect_globals": True},
+}
+
+
+def read_global_groups():
+    text = open(os.path.join(C.REPO, "src/rules/rename_variables/globals.rs"), errors="replace").read()
+    groups = {}
+    for name, key in (("DEFAULT", "$default"), ("ROBLOX", "$roblox")):
+        m = re.search(r"pub const %s: \[&str; \d+\] = \[(.*?)\];" % name, text, flags=re.S)
+        groups[key] = re.findall(r'"([^"]+)"', m.group(1)) if m else [key]
+    return groups
+
+
+def plain(v):
+    if isinstance(v, O):
+        return {k: plain(x) for k, x in v}
+    if isinstance(v, list):
+        return [plain(x) for x in v]
+    if isinstance(v, (int, float)) and not isinstance(v, bool):
+        return num(v)
+    return v
+
+
+def as_list(v):
+    if v is None:
+        return []
+    return [v] if isinstance(v, str) else list(v)
+
+
+def full_mode(m):
+    if isinstance(m, str):
+        m = O([("name", m)])
+    d = dict(m)
+    name = d.get("name")
+    if name == "path":
+        return {"name": "path", "module_folder_name": d.get("module_folder_name", "init"),
+                "sources": plain(d.get("sources", O())), "use_luau_configuration": d.get("use_luau_configuration", True)}
+    if name == "luau":
+        return {"name": "luau", "use_luau_configuration": d.get("use_luau_configuration", True),
+                "aliases": plain(d.get("aliases", d.get("sources", O())))}
+    style = d.get("indexing_style", "find_first_child")
+    return {"name": name, "rojo_sourcemap": d.get("rojo_sourcemap"),
+            "indexing_style": dict(style).get("name") if isinstance(style, O) else style}
+
+
+def full_rule(r, groups):
+    pairs = list(r) if isinstance(r, O) else [("rule", r)]
+    name = dict(pairs).get("rule")
+    out = {"rule": name, "apply_to_files": [], "skip_files": [], "props": plain(O(RULE_DEFAULTS.get(name, {}).items()))}
+    for k, x in pairs:
+        if k == "rule":
+            continue
+        if k in ("apply_to_files", "skip_files"):
+            out[k] = as_list(x)
+        elif k in ("current", "target") and name == "convert_require":
+            out["props"][k] = full_mode(x)
+        else:
+            out["props"][k] = plain(x)
+    if "globals" in out["props"]:
+        expanded = set()
+        for g in out["props"]["globals"]:
+            expanded.update(groups.get(g, [g]))
+        out["props"]["globals"] = sorted(expanded)
+    return out
+
+
+def full_config(c, groups, default_rules):
+    d = dict(c)
+    rules = d.get("rules", d.get("process"))
+    g = d.get("generator", "retain_lines")
+    gd = dict(g) if isinstance(g, O) else {"name": g}
+    gname = "retain_lines" if gd.get("name") in ("retain_lines", "retain-lines") else gd.get("name")
+    b = d.get("bundle")
+    bd = dict(b) if isinstance(b, O) else None
+    return {
+        "rules": [full_rule(r, groups) for r in (default_rules if rules is None else rules)],
+        "generator": {"name": gname, "column_span": None if gname == "retain_lines" else gd.get("column_span", 80)},
+        "bundle": None if bd is None else {
+            "require_mode": full_mode(bd["require_mode"]),
+            "modules_identifier": bd.get("modules_identifier") or "__DARKLUA_BUNDLE_MODULES",
+            "excludes": sorted(set(bd.get("excludes", [])))},
+        "apply_to_files": as_list(d.get("apply_to_files")), "skip_files": as_list(d.get("skip_files")),
+    }
+
+
+def first_difference(a, b, path=""):
+    if isinstance(a, dict) and isinstance(b, dict):
+        for k in sorted(set(a) | set(b)):
+            if k not in a or k not in b:
+                return path + "." + k
+            d = first_difference(a[k], b[k], path + "." + k)
+            if d:
+                return d
+        return None
+    if isinstance(a, list) and isinstance(b, list) and len(a) == len(b):
+        for i, (x, y) in enumerate(zip(a, b)):
+            d = first_difference(x, y, path + "[%d]" % i)
+            if d:
+                return d
+        return None
+    return None if a == b and type(a) == type(b) or (a == b and not isinstance(a, bool) and not isinstance(b, bool)) else (path or ".")
+
+
+def bundle_tree():
+    """a project where every field of the bundle require modes changes the bundle (or makes it fail)"""
+    return {
+        "src/main.luau": "local a = require(\"./folder\")\nlocal c = require(\"@pkg/mod\")\nreturn { a, c }\n",
+        "src/folder/init.luau": "return \"init\"\n", "src/folder/index.luau": "return \"index\"\n",
+        "src/pkgdir/mod.luau": "return \"pkgdir\"\n", "src/rcdir/mod.luau": "return \"rcdir\"\n",
+        ".luaurc": "{\"aliases\": {\"pkg\": \"./src/rcdir\"}}",
+    }
+
+
 def tree():
     t = {"src/main.luau": PROBE, "src/sub/mod.luau": PROBE, "src/sub/deep/leaf.lua": PROBE}
     for d in ("src", "src/sub", "src/sub/deep"):
@@ -832,8 +1061,9 @@ def run(ctx):
     panics = [c for c in cases if c.res.get("panic")]
 
     # ---- 2. oracle tables
-    values = [(c.kind, canon_rule(c.value) if c.kind == "rule" else canon_config(c.value)) for c in cases]
-    globs, regexes, idents, modes, bundles, glists = collect_oracle_inputs(values)
+    values = [None if c.tags.get("nomodel") else
+              (c.kind, canon_rule(c.value) if c.kind == "rule" else canon_config(c.value)) for c in cases]
+    globs, regexes, idents, modes, bundles, glists = collect_oracle_inputs([v for v in values if v is not None])
     mode_keys = sorted(modes)
     bundle_keys = sorted(bundles)
     glist_keys = sorted(glists)
@@ -875,7 +1105,10 @@ def run(ctx):
 
     # ---- 3. model = code, inside Coq
     coq_cases = []
-    for idx, (c, (kind, v)) in enumerate(zip(cases, values)):
+    for idx, (c, kv) in enumerate(zip(cases, values)):
+        if kv is None:
+            continue
+        kind, v = kv
         a = c.res
         if a.get("ok"):
             ser = loads(a["ser"])
@@ -954,12 +1187,29 @@ def run(ctx):
         wrap = lambda r: '{"rules":[%s],"generator":"retain_lines"}' % r
         add_job(wrap(c.text), (c, "orig"))
         add_job(wrap(c.res["ser"]), (c, "back"))
-    out = talk(jobs)[1:]
+    n_main = len(jobs)
+    # configurations with a bundle block additionally bundle a project where every require-mode field matters
+    bundle_cases = [c for c in cfg_cases if isinstance(c.value, O) and isinstance(dict(c.value).get("bundle"), O)]
+    jobs.append({"tree": bundle_tree()})
+    for c in bundle_cases:
+        for which, text in (("orig-bundle", c.text), ("back-bundle", c.res["ser"])):
+            jobs.append({"id": len(jobs), "config": text, "input": "src/main.luau", "output": "out/main.luau"})
+            job_index.append((c, which))
+    out = [a for a in talk(jobs)[1:] if "tree" not in a]
     beh = {}
     for (c, which), a in zip(job_index, out):
         beh[(id(c), which)] = (a["ok"], tuple(e.split(" at line")[0] for e in a["errors"]), tuple(sorted(a["files"].items())))
         if a.get("panic"):
             panics.append(c)
+    bundle_outputs = set()
+    for c in bundle_cases:
+        b0, b1 = beh[(id(c), "orig-bundle")], beh[(id(c), "back-bundle")]
+        bundle_outputs.add(b0)
+        if b0 != b1:
+            findings.append(("roundtrip:behaviour:bundle",
+                             "the round-tripped configuration bundles the probe project differently",
+                             {"kind": c.kind, "text": c.text, "serialized": c.res["ser"], "errors": [b0[1], b1[1]],
+                              "outputs": [dict(b0[2]).get("out/main.luau"), dict(b1[2]).get("out/main.luau")]}))
     by_ser = {}
     compared = 0
     for c in cfg_cases + rule_level:
@@ -981,6 +1231,38 @@ def run(ctx):
                                  "two configurations that behave differently serialize to the same text",
                                  {"text_1": c0.text, "text_2": c.text, "serialized": c.res["ser"]}))
                 break
+    # 4e. the configuration read back from the serialized text MEANS the same (every default written out, python-side
+    #     reading of the documentation): catches a value that is dropped or altered even when nothing observable on the
+    #     probe tree depends on it and even when the written text is a fixed point
+    groups = read_global_groups()
+    meaning_compared = 0
+    for c in accepted:
+        if "ser_error" in c.res or not c.res["back"]["ok"] or c.tags.get("nomodel"):
+            continue
+        try:
+            if c.kind == "rule":
+                fa, fb = full_rule(c.value, groups), full_rule(loads(c.res["ser"]), groups)
+            else:
+                fa = full_config(c.value, groups, names_ans["default_rules"])
+                fb = full_config(loads(c.res["ser"]), groups, names_ans["default_rules"])
+        except (KeyError, TypeError, AttributeError, ValueError):
+            continue        # not a documented shape (an accepted corruption: reported by 4a)
+        if c.expect == "reject":
+            continue
+        meaning_compared += 1
+        where = first_difference(fa, fb)
+        if where:
+            key = "roundtrip:meaning:%s:%s" % (rule_of(c), re.sub(r"\[\d+\]", "", where))
+            if rule_of(c) == "inject_global_value" and re.search(r"props\.(value|default_value)", where):
+                key = "strict:inject_global_value:value:require-mode-capture"
+            if where.endswith("props.globals"):
+                ra = fa if c.kind == "rule" else fa["rules"][int(re.search(r"rules\[(\d+)\]", where).group(1))]
+                rb = fb if c.kind == "rule" else fb["rules"][int(re.search(r"rules\[(\d+)\]", where).group(1))]
+                if sorted(set(ra["props"]["globals"]) | set(groups["$default"])) == rb["props"]["globals"]:
+                    key = "strict:rename_variables:globals-extend-default"
+            findings.append((key, "the configuration read back from its serialized text means something else (at %s)" % where,
+                             {"kind": c.kind, "text": c.text, "serialized": c.res["ser"], "differs_at": where}))
+
     # 4d. `means exactly what it says`: the value injected by inject_global_value is the JSON value of the configuration
     inj = [{"tree": {"src/v.lua": "return _G.FLAG\n"}}]
     inj_cases = []
@@ -1015,6 +1297,10 @@ def run(ctx):
     ctx.stream("process(): configuration vs its round-tripped text on the probe tree; same text => same behaviour (Rust only)",
                compared * 2, compared, [], findings=sum(1 for k, _, _ in findings if "behaviour" in k or k.startswith("injective")),
                serialized_texts=len(by_ser))
+    ctx.stream("meaning (all defaults written out) of a configuration == meaning of its serialized text read back (Rust only)",
+               meaning_compared, meaning_compared, [], findings=sum(1 for k, _, _ in findings if k.startswith("roundtrip:meaning")))
+    ctx.stream("bundle block: probe project bundled under the configuration vs under its round-tripped text (Rust only)",
+               2 * len(bundle_cases), len(bundle_outputs), [], findings=sum(1 for k, _, _ in findings if k == "roundtrip:behaviour:bundle"))
     ctx.stream("inject_global_value: injected Lua value read back == configured JSON value (Rust only)",
                len(inj_cases), len(inj_cases), [], findings=sum(1 for k, _, _ in findings if k.startswith("strict:inject")))
 
@@ -1068,6 +1354,8 @@ def props_of(c):
 
 
 def strict_key(c):
+    if c.tags.get("nested"):
+        return "strict:duplicate-key:map-value:" + c.tags["nested"]
     w = c.why
     v = c.value
     if c.kind == "config" and isinstance(v, O):
